@@ -12,6 +12,7 @@ PROP_INVS = {
     "C09": ["C09w_AfterClose", "C09w_CloseMeansDrained", "C09w_AttemptsBounded"],
 }
 MON_EXTRA = {  # invariants that exist only on recorded traces (watchdog observations)
+    "C07": ["C07_SingleSender"],
     "C08": ["C08_NoStuckCall", "C08_SingleTP"],
     "C09": ["C09w_CloseReturns"],
 }
@@ -209,6 +210,17 @@ def directed_scripts():
         {"op": "waitgate", "gate": "bqput:1"}, {"op": "call", "c": 2, "g": 2, "msgs": [M(40)]},
         {"op": "sleep", "ms": 30}, {"op": "release", "gate": "bqput:1"}, {"op": "sleep", "ms": 40}]})
     out[-1]["cfg"]["async"] = True
+    # D12: first use of a partition by several goroutines at once: the creation of the partition writer is held (hook pw.new,
+    # inside newPartitionWriter) while the others arrive; one writer per partition, per-goroutine order kept
+    for k, n in enumerate([2, 3]):
+        steps = [{"op": "hold", "gate": "hook:pw.new"}, {"op": "call", "c": 1, "g": 1, "msgs": [M(40)]}, {"op": "waitgate", "gate": "hook:pw.new"}]
+        for g in range(2, n + 1):
+            steps.append({"op": "call", "c": g, "g": g, "msgs": [M(40)]})
+        steps += [{"op": "sleep", "ms": 30}, {"op": "release", "gate": "hook:pw.new"}]
+        for g in range(1, n + 1):
+            steps.append({"op": "call", "c": 10 + g, "g": g, "msgs": [M(40), M(40)]})
+        steps.append({"op": "sleep", "ms": 60})
+        out.append({"id": "D12-first-use-%d" % k, "cfg": dict(base, nparts={"t": 1}, batchSize=1, batchTimeoutMs=10), "outcomes": {}, "steps": steps})
     # D11: a BatchTimeout far beyond the scenario (size-only batching): batches closed by the overflow path, by
     # becoming full and by Close; Close and the calls must not wait for any batch timer (C09), and a batch opened
     # after an overflow is still closed by its own timer (C08, short timeout variant)
